@@ -132,6 +132,69 @@ void native(char const* desc)
     t.emit();
 }
 
+// a bare built-in integer on one side of a native-tag wrapper: W(a) op b and b op W(a) vs a op b (value and result type)
+template<class W, class T, class T2, int Oper>
+void native_mixed(char const* desc)
+{
+    if (!kernel_selected(desc)) return;
+    Tally t(desc);
+    Rng rng(mix(env_seed(), hash_str(desc)));
+    auto as = values_for<T>();
+    auto bs = values_for<T2>();
+    size_t na = as.size(), nb = bs.size();
+    if (width_of<T> > 8) for (int i = 0; i < 30; ++i) as.push_back(rand_val<T>(rng));
+    if (width_of<T2> > 8) for (int i = 0; i < 30; ++i) bs.push_back(rand_val<T2>(rng));
+    using P = decltype(T{} + T2{});
+    for (size_t i = 0; i < as.size() && !t.closed; ++i)
+        for (size_t j = 0; j < bs.size(); ++j) {
+            T a = as[i];
+            T2 b = bs[j];
+            X A = X::of(a), B = X::of(b);
+            // the built-in twin must be defined (arithmetic in the common type P)
+            bool def = true;
+            if (Oper == ADD) def = !is_sgn<P> || (fits<P>(A + B));
+            else if (Oper == SUB) def = !is_sgn<P> || (fits<P>(A - B) && fits<P>(B - A));
+            else if (Oper == MUL) def = !is_sgn<P> || fits<P>(A * B);
+            else if (Oper == DIV || Oper == MOD) def = !A.zero() && !B.zero() && !(is_sgn<P> && ((A == xmin<P>() && B == X::from_i(-1)) || (B == xmin<P>() && A == X::from_i(-1))));
+            if (!def) { ++t.ood; continue; }
+            int rc = 0;
+            std::string got, want;
+            Outcome o = guarded([&] {
+                W wa(a);
+                auto both = [&](auto const& r1, auto const& e1, auto const& r2, auto const& e2) {
+                    int c1 = same(r1, e1), c2 = same(r2, e2);
+                    rc = c1 ? c1 : c2;
+                    got = istr(r1) + "," + istr(r2);
+                    want = istr(e1) + "," + istr(e2);
+                };
+#define VF_MIX(OP) both(cnl::unwrap(wa OP b), (a OP b), cnl::unwrap(b OP wa), (b OP a));
+                if constexpr (Oper == ADD) VF_MIX(+)
+                else if constexpr (Oper == SUB) VF_MIX(-)
+                else if constexpr (Oper == MUL) VF_MIX(*)
+                else if constexpr (Oper == DIV) VF_MIX(/)
+                else if constexpr (Oper == MOD) VF_MIX(%)
+                else if constexpr (Oper == AND) VF_MIX(&)
+                else if constexpr (Oper == OR) VF_MIX(|)
+                else if constexpr (Oper == XOR) VF_MIX(^)
+                else if constexpr (Oper == LT) VF_MIX(<)
+                else if constexpr (Oper == LE) VF_MIX(<=)
+                else if constexpr (Oper == GT) VF_MIX(>)
+                else if constexpr (Oper == GE) VF_MIX(>=)
+                else if constexpr (Oper == EQ) VF_MIX(==)
+                else VF_MIX(!=)
+#undef VF_MIX
+            });
+            bool nt = i < na && j < nb && (is_boundary(a) || is_boundary(b));
+            auto in = [&] { return istr(a) + " " + opname(Oper) + " " + istr(b) + " (wrapper op bare, bare op wrapper)"; };
+            if (o.kind == VALUE && rc == 0) {
+                t.held(o, nt);
+                t.sample(nt, in, [&] { return want; }, [&] { return got; });
+            } else
+                t.violation(o.kind != VALUE ? kind_name(o.kind) : rc == 2 ? "result_type_differs_from_builtin" : "value_differs_from_builtin", o, in(), want, outcome_str(o, got), nt);
+        }
+    t.emit();
+}
+
 // documented fixed-point kernels vs their hand-written shift-and-operate twins
 enum Kern { MULWIDEN, MIXADD, AVERAGE, SQUARE, INCDEC };
 template<class T, int E1, int E2, int K>
